@@ -397,7 +397,8 @@ def rule_model_conversion(prog, rep):
     PQR file with one line per layout class.  The cube text they produce is parsed and compared with the inputs."""
     from ..guards import Flow
     from ..objinterp import ObjRunner
-    from .shared import PQR_MODEL_LINES
+    from .shared import pqr_model
+    PQR_MODEL_LINES, _src = pqr_model(prog)
     r = rep.rule("R5", "model conversion: header, atom block and values of the cube equal the DX and PQR inputs", floor=6)
     where = "pdb2pqr/io.py (read_pqr, read_dx, write_cube)"
     written = []
